@@ -16,6 +16,7 @@
 
 //! Part of the lexer that parses backquotes
 
+use super::core::Lexer;
 use super::core::WordContext;
 use super::core::WordLexer;
 use crate::parser::core::Result;
@@ -34,6 +35,17 @@ impl WordLexer<'_, '_> {
             };
             let is_escapable =
                 |c| matches!(c, '$' | '`' | '\\') || c == '"' && double_quote_escapable;
+
+            // A backslash right after the backslash is the escaped character
+            // even if it is followed by a newline, so it must not be taken
+            // for the start of a line continuation.
+            let mut lexer = self.disable_line_continuation();
+            let second_backslash = lexer.consume_char_if(|c| c == '\\').await?.is_some();
+            Lexer::enable_line_continuation(lexer);
+            if second_backslash {
+                return Ok(Some(BackquoteUnit::Backslashed('\\')));
+            }
+
             if let Some(c) = self.consume_char_if(is_escapable).await? {
                 return Ok(Some(BackquoteUnit::Backslashed(c.value)));
             } else {
@@ -217,6 +229,25 @@ mod tests {
         });
 
         assert_eq!(lexer.peek_char().now_or_never().unwrap(), Ok(None));
+    }
+
+    #[test]
+    fn lexer_backquote_escaped_backslash_before_newline() {
+        let mut lexer = Lexer::with_code("`\\\\\n`");
+        let mut lexer = WordLexer {
+            lexer: &mut lexer,
+            context: WordContext::Word,
+        };
+        let result = lexer.backquote().now_or_never().unwrap().unwrap().unwrap();
+        assert_matches!(result, TextUnit::Backquote { content, .. } => {
+            assert_eq!(
+                content,
+                [
+                    BackquoteUnit::Backslashed('\\'),
+                    BackquoteUnit::Literal('\n')
+                ]
+            );
+        });
     }
 
     #[test]
